@@ -70,6 +70,7 @@ package inprocgrpc
 //@   assert_call[C06,C01] inprocgrpc.Cloner.Copy : response_is_copied_into_the_callers_message: arg1 == resp && arg2 == r.data && r.data != nil
 //@   ensures[C04] never_a_bare_context_error: called("go") && result != context.Canceled && result != context.DeadlineExceeded || !called("go") || called("inprocgrpc.Cloner.Copy")
 //@   ensures[C02,C04] error_frame_is_translated: called("internal.TranslateContextError") ==> result == lastresult("internal.TranslateContextError")
+//@   ensures[C04,C03,C02] success_only_if_the_context_was_live: called("go") && !called("internal.TranslateContextError") && (result == nil || (result == io.EOF && (!called("inprocgrpc.Cloner.Copy") || lastresult("inprocgrpc.Cloner.Copy") == nil))) ==> called("context.Context.Err") && lastresult("context.Context.Err") == nil && lastarg("context.Context.Err", 0) == lastresult("context.WithCancel", 0)
 //@   assert_call[C03] (*internal.CallOptions).SetHeaders : header_frame_to_the_call_options: arg0 == lastresult("internal.GetCallOptions") && arg1 == r.headers
 //@   assert_call[C03] (*internal.CallOptions).SetTrailers : trailer_frame_to_the_call_options: arg0 == lastresult("internal.GetCallOptions") && arg1 == r.trailers
 //@   modifies everything
